@@ -80,7 +80,7 @@ def _outcome(f, *a):
         return ("exc", type(e).__name__, str(e)[:120])
 
 
-def check_selection(rec, sel, req, opt, curve_factory):
+def check_selection(rec, sel, req, opt, curve_factory, shared=None):
     from nanite import preproc
     case = {"selection": sel}
     rec.evaluated(dg="|".join(sel), nontrivial=len(sel) > 0)
@@ -131,6 +131,21 @@ def check_selection(rec, sel, req, opt, curve_factory):
     if ao[0] == "exc":
         rec.check(ao[1] in ("ValueError", "KeyError"), "apply/exception-type",
                   "apply raised %s for %s" % (ao[1:], sel), case)
+    if shared is not None:
+        # the same rule through Indentation.apply_preprocessing on ONE curve
+        # object that has seen the other orderings of these steps before
+        so2 = _outcome(lambda: shared.apply_preprocessing(list(sel), {}))
+        rec.event("requests on a curve that saw other orderings before")
+        rec.check((so2[0] == "ok") == want, "apply/acceptance-on-used-curve",
+                  "Indentation.apply_preprocessing %s for %s on a curve used "
+                  "before (previous pipeline %s), expected %s"
+                  % (so2[:2], sel, list(PREVIOUS),
+                     "accept" if want else "reject"),
+                  dict(case, previous=list(PREVIOUS)))
+        PREVIOUS[:] = list(sel) if so2[0] == "ok" else []
+
+
+PREVIOUS = []
 
 
 def run_shard(rec, tier, seed, shard, nshards):
@@ -154,13 +169,14 @@ def run_shard(rec, tier, seed, shard, nshards):
         return gen.make_indentation(data, with_tip=False)
 
     import zlib
+    shared = factory()
     for i, sel in enumerate(sels):
         # all orderings of one subset are judged in the SAME process (a
         # result that depends on earlier calls with the same steps would
         # otherwise go unnoticed)
         if zlib.crc32("|".join(sorted(sel)).encode()) % nshards != shard:
             continue
-        check_selection(rec, sel, req, opt, factory)
+        check_selection(rec, sel, req, opt, factory, shared)
         if len(sel) == 5:
             rec.sample({"selection": sel,
                         "autosort": _outcome(preproc.autosort, list(sel))})
